@@ -38,7 +38,8 @@ def build_objects(rng):
     from mwparserfromhell.nodes.extras import Attribute, Parameter
     objs = []
     docs = ["{{t|a|k=v}}text&amp;[[l|t]]<b a=\"1\" c>x</b>==h==\n<!--c-->{{{a|b}}}[http://x y] ''i''",
-            "", "x", "  padded  ", "{{a}}", "5", "None", "3.5", "[1, 2]", "{{foo|5}}", "True", "()", "b'x'"]
+            "", "x", "  padded  ", "{{a}}", "5", "None", "3.5", "[1, 2]", "{{foo|5}}", "True", "()", "b'x'",
+            "caf\udce9 {{foo|bar\udcff}}", "\udc80", "x\ud800y", "na\u00efve {{Dvo\u0159\u00e1k|\u65e5\u672c}}"]
     for _ in range(3):
         docs.append(wikigen.gen_doc(rng, depth=3))
     for d in docs:
@@ -88,6 +89,7 @@ def real_lookup(x, name, mixin):
 def run(tier, seed):
     from mwparserfromhell.string_mixin import StringMixIn
     c = vlib.Check("C16", tier, seed, "proof")
+    vlib.pure_python_parser()
     c.prove("C16.v")
     rng = random.Random(seed * 31 + 16)
     objs = build_objects(rng)
